@@ -229,6 +229,12 @@ class VTask(Task):
                 if nth < n:
                     raise TransientError("vf transient")
             return TaskResult.success(outputs=out)
+        if kind == "jump_at":
+            # jumps to the target only in the loop iteration whose jump count equals ``at`` (else succeeds)
+            jumps = int(stage.context.get("_jump_count", 0) or 0)
+            if jumps == int(beh.get("at", 1)) and not stage.context.get("jumped_" + tname):
+                return TaskResult.jump_to(beh["target"], context={"from_jump_at": jumps}, outputs=out)
+            return TaskResult.success(outputs=out)
         if kind == "jump":
             times = int(beh.get("times", 1))
             jumps = int(stage.context.get("_jump_count", 0) or 0)
@@ -763,6 +769,20 @@ def wl_sidejump(times: int = 1) -> Workflow:
     )
 
 
+def wl_loop_skip() -> Workflow:
+    """a -> b -> c -> d; d jumps back to a once; in the second iteration a jumps forward to c, so b
+    (which ran in iteration 1) is skipped in iteration 2."""
+    return workflow(
+        [
+            stage("a", tasks={"t1": {"kind": "jump_at", "target": "c", "at": 1}}),
+            stage("b", ["a"]),
+            stage("c", ["b"]),
+            stage("d", ["c"], tasks={"t1": {"kind": "jump", "target": "a", "times": 1}}),
+            stage("e", ["d"]),
+        ]
+    )
+
+
 def wl_joinjump(times: int = 1) -> Workflow:
     """a -> {b1, b2} -> c (a join that jumps back to a `times` times) -> z."""
     return workflow(
@@ -877,6 +897,7 @@ WORKLOADS: dict[str, Callable[[], Workflow]] = {
     "backjump1": lambda: wl_backjump(1),
     "backjump2": lambda: wl_backjump(2),
     "sidejump": wl_sidejump,
+    "loop_skip": wl_loop_skip,
     "backjump1sib": lambda: wl_backjump(1, sibling=True),
     "fwdjump": wl_forward_jump,
     "joinjump": wl_joinjump,
